@@ -3,16 +3,16 @@ use super::asmrun::*;
 use crate::util::*;
 
 pub fn run(ctx: &Ctx) -> Report {
-    let mut rep = Report::new("label-focused programs (mixed-case ASCII labels, several labels on one statement, the same label repeated at one address, labels on .end, external declarations before/inside/after blocks), base programs, all 1-2 (thorough 3) statement sequences with labels on every statement; every label queried as written/UPPER/lower/alternating through lookup_label, get_label_source, rev_lookup_label and label_iter, plus absent names. non-trivial = assembled program with at least one label");
+    let mut rep = Report::new("label-focused programs (mixed-case ASCII labels, several labels on one statement, the same label repeated at one address, labels on .end, external declarations before/inside/after blocks; the label and fault families also assembled WITHOUT debug symbols, where a program with externals still carries a label table), base programs, all 1-2 (thorough 3) statement sequences with labels on every statement; every label queried as written/UPPER/lower/alternating through lookup_label, get_label_source, rev_lookup_label and label_iter, plus absent names. non-trivial = assembled program with at least one label");
     let styles: Vec<(u64, u64)> = vec![(0, DEFAULT_SECONDARY), (3887, 0), (1234, 9), (2600, 33)];
     let plans = vec![
-        Plan { fam: "LAB", styles: styles.clone(), debug: vec![true], stride: 1 },
+        Plan { fam: "LAB", styles: styles.clone(), debug: vec![true, false], stride: 1 },
         Plan { fam: "BASE", styles: styles.clone(), debug: vec![true], stride: 1 },
         Plan { fam: "BLK", styles: vec![(0, DEFAULT_SECONDARY)], debug: vec![true], stride: 1 },
         Plan { fam: "S1", styles: styles.clone(), debug: vec![true], stride: 1 },
         Plan { fam: "S2", styles: vec![(0, DEFAULT_SECONDARY)], debug: vec![true], stride: 1 },
         Plan { fam: "S3", styles: vec![(0, DEFAULT_SECONDARY)], debug: vec![true], stride: ctx.pick(11, 1) },
-        Plan { fam: "F1", styles: vec![(0, DEFAULT_SECONDARY)], debug: vec![true], stride: 1 },
+        Plan { fam: "F1", styles: vec![(0, DEFAULT_SECONDARY)], debug: vec![true, false], stride: 1 },
     ];
     run_plans(ctx, &mut rep, "C23", &plans, &|i| i.accepted && i.labels > 0);
     rep.require(rep.acc.nontrivial > 5_000, "programs with labels were assembled and queried");
